@@ -20,7 +20,7 @@ RULE = ('enumerated (model, L, coefficient style in complex/real/sparse/sparse_r
         'rotation/reflection/phases/identity/swap, coefficient style) x seeds. A case whose reference operator is exactly '
         'zero is skipped and counted trivial; distinct = distinct descriptor')
 BOUNDS = {'quick': 'spinless L=1..6 (optimized L>=1, explicit L>=4), spin L=1..4 (optimized L>=1, explicit L>=2) and '
-                   'explicit-only L=5 (2 cases), 10 styles x 4 resp. 3 seeds; gauge L=4..6, every i, 8 unitary styles x 3 coefficient styles',
+                   'explicit-only L=5 (2 cases), 10 styles x 8 resp. 6 seeds; gauge L=4..6, every i, 8 unitary styles x 3 coefficient styles x 2 seeds',
           'thorough': 'same L ranges, 10 styles x 40 resp. 25 seeds, explicit-only spin L=5 x 20; gauge L=4..6, every i, '
                       '8 unitary styles x 3 coefficient styles x 10 seeds'}
 
@@ -38,11 +38,11 @@ def cases(tier, seed):
         return int(rng.integers(1 << 31))
     for L in range(1, 7):
         for style in h_ham.COEFF_STYLES:
-            for r in range(4 if quick else 40):
+            for r in range(8 if quick else 40):
                 yield dict(kind='spinless', L=L, style=style, seed=s())
     for L in range(1, 5):
         for style in h_ham.COEFF_STYLES:
-            for r in range(3 if quick else 25):
+            for r in range(6 if quick else 25):
                 yield dict(kind='spin', L=L, style=style, seed=s())
     for r in range(2 if quick else 20):
         yield dict(kind='spin', L=5, style=('complex', 'sparse_real', 'symmetric', 'real')[r % 4], explicit_only=True, seed=s())
@@ -50,7 +50,7 @@ def cases(tier, seed):
         for i in range(L - 1):
             for k, ustyle in enumerate(USTYLES):
                 for cstyle in GAUGE_CSTYLES:
-                    for r in range(1 if quick else 10):
+                    for r in range(2 if quick else 10):
                         yield dict(kind='gauge', L=L, i=i, ustyle=ustyle, uidx=k, cstyle=cstyle, seed=s())
 
 
